@@ -265,13 +265,17 @@ func (h *histState) foldEvents(evs []ref.Event) {
 			taskWrites[e.Addr] = true
 		case ref.EvWriteAttempt:
 			// naming the target of a failed DIV/MOD is allowed, not required
+			if len(h.fold[e.Addr].alts) == 0 {
+				h.fold[e.Addr].alts = []foldAlt{{gi.CoreEmpty, -1}} // untouched so far: staying empty remains admissible
+			}
 			h.fold[e.Addr].alts = append(h.fold[e.Addr].alts, foldAlt{gi.CoreWritten, e.W})
 			taskWrites[e.Addr] = true
 		case ref.EvTaskDeath:
 			if taskWrites[e.Addr] {
 				// DIV/MOD by zero whose target is the instruction itself:
-				// either order of the two reports is accepted
-				h.fold[e.Addr].alts = append(h.fold[e.Addr].alts, foldAlt{gi.CoreTerminated, e.W})
+				// either order of the two reports is accepted (and the write
+				// report may be absent when nothing was stored)
+				h.fold[e.Addr].alts = []foldAlt{{gi.CoreTerminated, e.W}, {gi.CoreWritten, e.W}}
 			} else {
 				h.fold[e.Addr].set(gi.CoreTerminated, e.W)
 			}
